@@ -6,7 +6,7 @@ from vlib import Infra
 # term descriptor: ('C', byte) | ('S', bytes) | ('R', pattern bytes)
 def C(ch): return ('C', ord(ch))
 def S(s): return ('S', list(s.encode('latin-1')))
-def R(p): return ('R', list(p.encode('latin-1')))
+def R(p, name=None): return ('R', list(p.encode('latin-1'))) if name is None else ('R', list(p.encode('latin-1')), name)      # name: regex_term's custom name
 
 BASIC = [C('a'), C('b'), C('+'), S('ab'), S('if'), S('a1'), S('++'), R('[a-z]+'), R('a*b'), R('[ab]'), R('a+'), R('(a|b)c'), R('[0-9]+'), R('ab?'), R('[a-z][a-z0-9]*')]
 
